@@ -225,10 +225,11 @@ def runner(rep, tier, seed, replay):
         log("[C16] %s: %d lines" % (origin, len(got)))
         cases += got
     # lines whose end is where the script path's own pre-processing works (continuation folding, trimming): always part of the run
-    for t in ("vpa a\\ ", "vpa 'q' b\\ ", "vmk 5 0 x\\ \\ ",
+    for t in ("force=1 vpa a", "ifs=2 vpa b c", "whilex=3 vpa d", "done_=1 vpa e", "fi_x=1 vpa f ; vpa g", "elsex=1 vpa h",
+              "vpa a\\ ", "vpa 'q' b\\ ", "vmk 5 0 x\\ \\ ",
               "vpa a\\ b wow!", "vpa \\!\\ x", "vpa 'q!' c\\ d", "vpa x! \"y z\" \\;",
               "vpa a\\\\", "vpa a b\\\\\\\\", "vpa 'q r' b\\\\", "vmk 5 0 x\\\\", "vpa a\\\\ ; vpa b\\\\", "vpa \"x y\" ;  vpa z\\\\"):
-        cases.append({"text": t, "origin": "C16-edge", "feat": {"edge": "bang" if "!" in t else "escaped-blank-last" if t.endswith(" ") else "escaped-backslash-last"}})
+        cases.append({"text": t, "origin": "C16-edge", "feat": {"edge": "keyword-prefix" if "=" in t.split()[0] else "bang" if "!" in t else "escaped-blank-last" if t.endswith(" ") else "escaped-backslash-last"}})
     seen = set()
     uniq = []
     for c in cases:
